@@ -42,12 +42,16 @@ Qed.
 
 Lemma idp_validates_true p vr :
   idp_validates p vr = true <->
-  exists j a, vr = VStatus 200 j a /\ (p = Okta -> j = true /\ a = true).
+  exists j a, vr = VStatus 200 j a /\ (p <> Google -> j = true) /\ (p = Okta -> a = true).
 Proof.
   split.
   - destruct vr as [|st j a]; simpl; [discriminate|]. rewrite andb_true_iff, N.eqb_eq.
-    intros [-> H]. exists j, a. split; [reflexivity|]. intros ->. apply andb_true_iff in H. exact H.
-  - intros [j [a [-> H]]]. simpl. destruct p; [reflexivity|]. destruct (H eq_refl) as [-> ->]. reflexivity.
+    intros [-> H]. exists j, a. split; [reflexivity|].
+    destruct p; [split; [congruence | discriminate] | apply andb_true_iff in H; destruct H; split; auto
+                | split; [auto | discriminate]].
+  - intros [j [a [-> [H1 H2]]]]. simpl. destruct p; [reflexivity | |].
+    + rewrite H1 by discriminate. rewrite (H2 eq_refl). reflexivity.
+    + apply H1. discriminate.
 Qed.
 
 (* ---------- SplitN(_, ":", 2) ---------- *)
@@ -106,7 +110,7 @@ Definition refreshed_ok (now : Z) (s0 : session) (rr : refresh_reply) (s : sessi
 Definition validated_ok (p : pkind) (now : Z) (s0 : session) (vr : validate_reply) (s : session)
     (calls : list idp_call) : Prop :=
   now <= s_refresh s0 /\ s = s0 /\ s_access s0 <> [] /\
-  (exists j a, vr = VStatus 200 j a /\ (p = Okta -> j = true /\ a = true)) /\
+  (exists j a, vr = VStatus 200 j a /\ (p <> Google -> j = true) /\ (p = Okta -> a = true)) /\
   calls = [CallValidate (s_access s0)].
 
 Lemma auth_authenticate_ok cfg p now c rr vr s :
@@ -325,6 +329,83 @@ Proof.
   - destruct e; cbn [r_ops error_page] in H; try exact H;
       (apply in_app_or in H as [H|[H|[]]]; [exact H | discriminate]).
   - unfold proxy_oauth_redirect in H. destruct (is_nil (si_state rq)); exact H.
+Qed.
+
+(* ---------- concurrency: the coalesced refresh follower ---------- *)
+Lemma sign_in_is_dispatch cfg p now rq c rr vr :
+  sign_in lower cfg p now rq c rr vr = sign_in_dispatch rq (auth_authenticate lower cfg p now c rr vr).
+Proof. reflexivity. Qed.
+
+Lemma follower_inv cfg now c a :
+  auth_authenticate_follower lower cfg now c = Some a ->
+  exists s0, c = CkSealed KCookie s0 /\ now <= s_lifetime s0 /\ s_refresh s0 < now /\ s_rtok s0 <> [] /\
+    ao_ops a = [OpSet s0] /\ ao_calls a = [] /\
+    (ao_res a = inr s0 /\ rule_passes lower cfg (s_email s0) = true \/
+     ao_res a = inl ENotAuthorized /\ rule_passes lower cfg (s_email s0) = false).
+Proof.
+  unfold auth_authenticate_follower. destruct (load_session c) as [e|s0] eqn:L; [discriminate|].
+  apply load_session_inr in L. subst c.
+  destruct (lifetime_expired now s0) eqn:LE; cbn [negb andb]; [discriminate|].
+  destruct (refresh_expired now s0) eqn:RE; cbn [andb]; [|discriminate].
+  destruct (is_nil (s_rtok s0)) eqn:RT; cbn [negb]; [discriminate|].
+  unfold lifetime_expired, refresh_expired, is_expired in *. apply Z.ltb_ge in LE. apply Z.ltb_lt in RE.
+  apply is_nil_false in RT. intros H. exists s0.
+  destruct (rule_passes lower cfg (s_email s0)) eqn:RP; inversion H; subst a; cbn;
+    repeat split; auto.
+Qed.
+
+(* a coalesced follower's response carries a code only for the UNTOUCHED authentic session,
+   within its lifetime, allowed by the rule, whose (non-empty) refresh token was due *)
+Lemma follower_code_sound cfg now rq c r s :
+  sign_in_route_follower lower cfg now rq c = Some r -> r_code r = Some s ->
+  si_get rq = true /\ si_client_ok rq = true /\ si_redirect_ok rq = true /\ si_sig_ok rq = true /\
+  c = CkSealed KCookie s /\ now <= s_lifetime s /\ s_refresh s < now /\ s_rtok s <> [] /\
+  rule_passes lower cfg (s_email s) = true /\ r_ops r = [OpSet s] /\ r_calls r = [].
+Proof.
+  unfold sign_in_route_follower.
+  destruct (si_get rq); cbn [andb]; [|discriminate].
+  destruct (si_client_ok rq); cbn [andb]; [|discriminate].
+  destruct (si_redirect_ok rq); cbn [andb]; [|discriminate].
+  destruct (si_sig_ok rq); cbn [andb]; [|discriminate].
+  destruct (auth_authenticate_follower lower cfg now c) as [a|] eqn:F; [|discriminate].
+  cbn [option_map]. intros H; inversion H; subst r; clear H.
+  destruct (follower_inv _ _ _ _ F) as [s0 [-> [L [R [T [Ops [Calls [[Res RP]|[Res RP]]]]]]]]];
+    unfold sign_in_dispatch; rewrite Res, Ops, Calls.
+  - unfold proxy_oauth_redirect. destruct (is_nil (si_state rq)); cbn; [discriminate|].
+    intros H; inversion H; subst s0. repeat split; auto.
+  - cbn. discriminate.
+Qed.
+
+Lemma follower_sets cfg now rq c r s' :
+  sign_in_route_follower lower cfg now rq c = Some r -> In (OpSet s') (r_ops r) ->
+  c = CkSealed KCookie s' /\ now <= s_lifetime s' /\ s_refresh s' < now.
+Proof.
+  unfold sign_in_route_follower.
+  destruct (si_get rq && si_client_ok rq && si_redirect_ok rq && si_sig_ok rq); [|discriminate].
+  destruct (auth_authenticate_follower lower cfg now c) as [a|] eqn:F; [|discriminate].
+  cbn [option_map]. intros H; inversion H; subst r; clear H.
+  destruct (follower_inv _ _ _ _ F) as [s0 [-> [L [R [T [Ops [Calls [[Res RP]|[Res RP]]]]]]]]];
+    unfold sign_in_dispatch; rewrite Res, Ops, Calls.
+  - unfold proxy_oauth_redirect. destruct (is_nil (si_state rq)); cbn;
+      intros [H|[]]; inversion H; subst; auto.
+  - cbn. intros [H|[]]; inversion H; subst; auto.
+Qed.
+
+Lemma follower_shape cfg now rq c r :
+  sign_in_route_follower lower cfg now rq c = Some r ->
+  match r_code r with
+  | Some _ => r_status r = 302%N /\ r_body r = BodyRedirect
+  | None => (400 <= r_status r)%N /\ r_body r = BodyErrorPage
+  end.
+Proof.
+  unfold sign_in_route_follower.
+  destruct (si_get rq && si_client_ok rq && si_redirect_ok rq && si_sig_ok rq); [|discriminate].
+  destruct (auth_authenticate_follower lower cfg now c) as [a|] eqn:F; [|discriminate].
+  cbn [option_map]. intros H; inversion H; subst r; clear H.
+  destruct (follower_inv _ _ _ _ F) as [s0 [-> [L [R [T [Ops [Calls [[Res RP]|[Res RP]]]]]]]]];
+    unfold sign_in_dispatch; rewrite Res.
+  - unfold proxy_oauth_redirect. destruct (is_nil (si_state rq)); cbn; split; try reflexivity; lia.
+  - cbn. split; [lia | reflexivity].
 Qed.
 
 (* ---------- /callback ---------- *)
